@@ -352,6 +352,8 @@ pub enum Inject {
     Consts { comp: usize, party: usize, from: usize },
     /// consts carrying one (bogus) constant
     ConstsNonEmpty { comp: usize, party: usize, from: usize },
+    /// the constants of the in-range party `from`, under their real names but with other values
+    ConstsWrong { comp: usize, party: usize, from: usize },
     Validate { comp: usize, party: usize },
     /// the party's own leader's validate request whose caller gives up right after the request has been
     /// queued (the answer channel is closed when the state machine wants to answer)
@@ -933,6 +935,20 @@ fn do_inject(shared: &Arc<Shared>, slot: &CallSlot, inj: &Inject, sc: &Scenario,
                 spawn_call(shared, slot, &name, comp, party, step, compile_alive, async move {
                     h.consts(ConstsRequest { from, computation_id: id, consts: Default::default() }).await
                 });
+            }
+        }
+        Inject::ConstsWrong { comp, party, from } => {
+            if let Some(h) = get(comp, party) {
+                let id = sc.policies[comp][party].computation_id;
+                let mut consts: polytune_server_core::Consts = Default::default();
+                for (k, v) in sc.policies[comp][from].constants.iter() {
+                    let w = match v {
+                        Literal::NumUnsigned(x, ty) => Literal::NumUnsigned((*x ^ 0xff) & 0xff, *ty),
+                        other => other.clone(),
+                    };
+                    consts.insert(k.clone(), w);
+                }
+                spawn_call(shared, slot, "consts-wrong", comp, party, step, compile_alive, async move { h.consts(ConstsRequest { from, computation_id: id, consts }).await });
             }
         }
         Inject::ConstsNonEmpty { comp, party, from } => {
